@@ -59,6 +59,23 @@ func drawField(t *rapid.T, name string, actual []byte, s *gen.Stream) []byte {
 }
 
 func drawList(t *rapid.T, name string, actual [][]byte, s *gen.Stream, maxLen int, exactLen int) [][]byte {
+	if exactLen == 0 && maxLen >= 2 && rapid.IntRange(0, 7).Draw(t, name+"-straddle") == 0 {
+		// two (or three) well-formed entries none of which is the value, but whose concatenation contains it across
+		// an entry boundary: membership is per entry, not a search in the joined list
+		a := actual[0]
+		n := len(a)
+		k := rapid.IntRange(1, n-1).Draw(t, name+"-cut")
+		e1 := append(s.Bytes(n-k), a[:k]...)
+		e2 := append(append([]byte{}, a[k:]...), s.Bytes(k)...)
+		e1[0] ^= 0x01 // make sure neither entry is the value itself
+		e2[n-1] ^= 0x01
+		out := [][]byte{e1, e2}
+		if rapid.Bool().Draw(t, name+"-third") && maxLen >= 3 {
+			out = append([][]byte{s.Bytes(n)}, out...)
+		}
+		gen.Class("opt:list-straddling-the-value")
+		return out
+	}
 	n := rapid.IntRange(0, maxLen).Draw(t, name+"-len")
 	if exactLen > 0 && rapid.IntRange(0, 2).Draw(t, name+"-exact") > 0 {
 		n = exactLen
@@ -103,7 +120,17 @@ func drawPolicyQuote(t *rapid.T, s *gen.Stream) *gen.RefQuote {
 }
 
 func drawMinSvn(t *rapid.T, name string, actual uint16) uint32 {
-	return rapid.SampledFrom([]uint32{0, 0, uint32(actual), uint32(actual) + 1, uint32(actual) - 1, 1, 65535}).Draw(t, name) & 0xffff
+	lo, hi := uint32(actual&0xff), uint32(actual>>8)
+	cands := []uint32{0, 0, uint32(actual), uint32(actual) + 1, uint32(actual) - 1, 1, 65535}
+	if hi > 0 && lo < 255 {
+		// numerically below the quote's value but with a larger low byte (a byte-wise comparison would call it a miss)
+		cands = append(cands, (hi-1)<<8|0xff, (hi-1)<<8|(lo+1), uint32(rapid.IntRange(0, int(hi)-1).Draw(t, name+"-hi"))<<8|uint32(rapid.IntRange(int(lo)+1, 255).Draw(t, name+"-lo")))
+	}
+	if hi < 255 && lo > 0 {
+		// numerically above the quote's value but with a smaller low byte
+		cands = append(cands, (hi+1)<<8, (hi+1)<<8|(lo-1))
+	}
+	return rapid.SampledFrom(cands).Draw(t, name) & 0xffff
 }
 
 func drawMinTee(t *rapid.T, actual []byte, s *gen.Stream) []byte {
@@ -318,6 +345,58 @@ func TestC08(t *testing.T) {
 				Replay: map[string]any{"kind": "validate", "raw_hex": hex.EncodeToString(q.Encode()), "options": fieldsJSON(p), "raw": raw}})
 		}
 	})
+	// Options that come out of a policy message (the route the check tool takes): when the conversion succeeds, validation
+	// must still mean what the message says — in particular for SVN minimums that do not fit the 16-bit options fields.
+	gen.Prop(t, "options-converted-from-a-policy", gen.N(6000, 400000), func(t *rapid.T) {
+		s := gen.NewStream(rapid.Uint64().Draw(t, "content"), "c08p")
+		q := drawPolicyQuote(t, s)
+		binary.LittleEndian.PutUint64(q.Xfam[:], gen.XfamFixed1|(s.Uint64()&gen.XfamFixed0))
+		binary.LittleEndian.PutUint64(q.TdAttr[:], s.Uint64()&gen.TdAttrAllowed)
+		p := &gen.PolicyFields{}
+		if rapid.Bool().Draw(t, "dense") {
+			p = drawPolicyFields(t, q, s)
+		}
+		switch rapid.IntRange(0, 3).Draw(t, "wide") {
+		case 0:
+			p.MinQeSvn = drawWideSvn(t, "wideqe", binary.LittleEndian.Uint16(q.Word10[:]))
+		case 1:
+			p.MinPceSvn = drawWideSvn(t, "widepce", binary.LittleEndian.Uint16(q.Word8[:]))
+		}
+		mv := gen.PolicyModel(q, p)
+		var opts *validate.Options
+		gen.Eval()
+		vc := gen.Call(func() error {
+			var err error
+			opts, err = validate.PolicyToOptions(fieldsToPolicy(p, false, false))
+			return err
+		})
+		rp := map[string]any{"kind": "policy", "raw_hex": hex.EncodeToString(q.Encode()), "policy": fieldsJSON(p), "no_header": false, "no_body": false, "nil_policy": false}
+		if vc.Panicked() {
+			gen.Fail(t, gen.Violation{Key: "panic@" + gen.PanicSite(vc.Stack), Oracle: "conversion returns options or an error", Detail: vc.Panic, Replay: rp})
+			return
+		}
+		if !vc.Accepted() || opts == nil {
+			gen.Class("policy-conversion-fails")
+			return
+		}
+		m := q.ToProto()
+		gen.Eval()
+		v := gen.Call(func() error { return validate.TdxQuote(m, opts) })
+		if v.Panicked() {
+			gen.Fail(t, gen.Violation{Key: "panic@" + gen.PanicSite(v.Stack), Oracle: "validation returns success or an error for every options value", Detail: v.Panic, Replay: rp})
+			return
+		}
+		if mv.Miss != "" && !mv.DontCare && v.Accepted() {
+			gen.Fail(t, gen.Violation{Key: "accepts-miss:converted-policy:" + mv.Miss, Oracle: "never accepts a quote that misses a configured expectation (options obtained by converting the policy message that states it)",
+				Detail: fmt.Sprintf("policy %v: expectation %s is missed, the policy converted and validation returned nil", fieldsJSON(p), mv.Miss), Replay: rp})
+			return
+		}
+		gen.Class("policy-conversion-succeeds")
+		if p.MinQeSvn > 65535 || p.MinPceSvn > 65535 || mv.Miss != "" {
+			gen.NonTrivial("converted", fmt.Sprint(fieldsJSON(p)), mv.Miss)
+		}
+	})
+
 	// Histories: ONE options value and a few parsed quote objects live through many validations (as in a service
 	// whose policy is edited while it runs); between validations the caller edits option byte strings and list
 	// entries in place or replaces them. Every validation is judged by the stateless model on the current values.
